@@ -14,9 +14,9 @@ MANIFEST = dict(
     text="(b) chains: proved in Lean for arbitrary chains of catalogue rows - every stage that can be fed from several goroutines emits into a locking subscriber whatever follows it "
          "(chain_serialized; the subscriber a stage emits into is the one created by the most downstream operator of the run of pass-through operators directly downstream of it, because "
          "newSubscriberImpl reuses a destination that already is a Subscriber) - from a per-row predicate decided by the kernel on the table regenerated from the source on every run "
-         "(constructor mode, pass-through, number of emission contexts of every operator body). Pinned tree: five pass-through operators are built with the unsafe constructor "
-         "(unsafe_passthrough_witness; chain_serialized_partial covers chains that avoid them) - known findings; the overlap search (Merge of goroutine-driven sources |> chains into a raw observer "
-         "with an inside counter) confirms both directions on the real code. (a) concurrent kernel (safe / eventually-safe subscriber, any number of producer goroutines, any schedule) and "
+         "(constructor mode, pass-through, number of emission contexts of every operator body): table_strict, chain_serialized_table. On the pinned tree five pass-through operators were built with the "
+         "unsafe constructor (callbacks overlapped downstream of Merge or a unicast subject; repaired in /repo, fix commit ee00f46); the overlap search (Merge of goroutine-driven sources and every subject kind with "
+         "several producers |> chains into a raw observer with an inside counter) validates the verdict of the model on the real code. (a) concurrent kernel (safe / eventually-safe subscriber, any number of producer goroutines, any schedule) and "
          "(c) subjects: see the kernel and C10 parts when present in this build.",
     technique="Lean 4 proof (induction over chains; lock invariant over schedules for the kernel part) + kernel-decided Catalogue table regenerated from source + overlap stress search",
     ref='5/C02')
